@@ -19,6 +19,7 @@ func init() {
 			{"NO-PACKAGE-STATE", ruleNoPackageState},
 			{"TXN-SHAPE", ruleTxnShape},
 			{"REPLICATOR-PERSIST", ruleReplicatorPersist},
+			{"KEY-AGREE", ruleKeyAgree},
 		},
 		Meta: eng.PropMeta{
 			Explanation: "Decides that what a running node keeps in memory is rebuilt from, and allocated through, the store: (LOADERS) every success path of the constructors passes the loaders of the persisted families — NewPeer: replicators, p2p collections, p2p documents (each loader reads the family and feeds the in-memory routing table; errors returned) and the retry loop is started; DB.initialize on an existing store: loadSchema and the lens reload before Commit; on a fresh store the /init marker is written before Commit; (ALLOC-PERSIST) Sequence.Next reads the counter from the system store of the context transaction, advances it by one and writes it back in the same call, returning the write's error — identifiers are never allocated from memory only; (NO-PACKAGE-STATE) the id and sequence packages keep no mutable package-level state (short-id caches hang off the context); (TXN-SHAPE) initialize and every API entry point commit through the transaction discipline of C05; (REPLICATOR-PERSIST) SetReplicator/DeleteReplicator write the peer store record inside a transaction whose success path updates the in-memory table.",
@@ -280,4 +281,76 @@ func ruleReplicatorPersist(c *eng.Ctx) {
 		writes := strings.Contains(bodyText(fi), "Peerstore()")
 		c.Check(writes, rule, shortFn(fi)+":writes-peerstore", fi.Decl.Pos(), "the replicator record is written to the peer store", "the replicator change is not written to the peer store")
 	}
+}
+
+// ruleKeyAgree: the persisted marker of a p2p subscription and its pubsub topic are addressed by the
+// same identifier in the add and the remove path (sibling agreement of key arguments).
+func ruleKeyAgree(c *eng.Ctx) {
+	const rule = "KEY-AGREE"
+	for _, pair := range []struct{ add, remove, keyCtor string }{
+		{"net.(*Peer).AddP2PCollections", "net.(*Peer).RemoveP2PCollections", "internal/keys.NewP2PCollectionKey"},
+		{"net.(*Peer).AddP2PDocuments", "net.(*Peer).RemoveP2PDocuments", "internal/keys.NewP2PDocumentKey"},
+	} {
+		kinds := map[string][]string{}
+		for _, fn := range []string{pair.add, pair.remove} {
+			fi := c.Anchor(rule, fn)
+			if fi == nil {
+				continue
+			}
+			info := fi.Pkg.TypesInfo
+			for _, cs := range eng.Calls(info, fi.Decl.Body) {
+				switch cs.Name {
+				case pair.keyCtor, "net.(*server).addPubSubTopic", "net.(*server).removePubSubTopic":
+					if len(cs.Call.Args) == 0 {
+						continue
+					}
+					kinds[originKind(info, cs.Call.Args[0])] = append(kinds[originKind(info, cs.Call.Args[0])], shortFn(fi)+"→"+cs.Name[strings.LastIndex(cs.Name, ".")+1:])
+				}
+			}
+		}
+		var ks []string
+		for k := range kinds {
+			ks = append(ks, k)
+		}
+		c.Check(len(ks) == 1, rule, pair.add[strings.LastIndex(pair.add, ".")+1:]+"≡"+pair.remove[strings.LastIndex(pair.remove, ".")+1:]+":identifier", token.NoPos,
+			fmt.Sprintf("add and remove address marker and topic by the same identifier (%v)", ks),
+			fmt.Sprintf("the persisted marker / pubsub topic is addressed by different identifiers in the add and remove paths: %v — a removed subscription's marker stays in the store and is re-subscribed after a restart (or the wrong one is deleted)", kinds))
+	}
+	// the per-replicator collection set handed to updateReplicators is built fresh for each replicator
+	if fi := c.Anchor(rule, "net.(*Peer).loadAndPublishReplicators"); fi != nil {
+		info := fi.Pkg.TypesInfo
+		ast.Inspect(fi.Decl.Body, func(m ast.Node) bool {
+			rs, ok := m.(*ast.RangeStmt)
+			if !ok {
+				return true
+			}
+			for _, cs := range eng.Calls(info, rs.Body) {
+				if cs.Name != "net.(*server).updateReplicators" || len(cs.Call.Args) != 2 {
+					continue
+				}
+				set := eng.ObjOf(info, cs.Call.Args[1])
+				fresh := set != nil && rs.Body.Pos() <= set.Pos() && set.Pos() <= rs.Body.End()
+				c.Check(fresh, rule, "loadAndPublishReplicators:set-fresh-per-replicator", cs.Call.Pos(), "each replicator's collection set is built inside its own loop iteration",
+					"the collection set passed to updateReplicators is declared outside the per-replicator loop: it accumulates across replicators, so after a restart later replicators also receive the collections of earlier ones")
+			}
+			return false
+		})
+	}
+}
+
+// originKind names where an identifier argument comes from: the method it is obtained with
+// ("SchemaRoot()", "VersionID field") or "plain" for parameters and locals.
+func originKind(info *types.Info, e ast.Expr) string {
+	e = ast.Unparen(e)
+	switch x := e.(type) {
+	case *ast.CallExpr:
+		if se, ok := x.Fun.(*ast.SelectorExpr); ok {
+			return se.Sel.Name + "()"
+		}
+	case *ast.SelectorExpr:
+		return "." + x.Sel.Name
+	case *ast.BasicLit:
+		return "literal"
+	}
+	return "plain"
 }
